@@ -104,6 +104,39 @@ pub fn check(tape: &[u32]) -> CheckResult {
         }
     }
     let plan = build_plan(&mut t);
+    // A linked cel on a tilemap layer pointing at a tilemap cel (same position and opacity as its target). The
+    // unchanged library refuses such files, then the sprite is used without the link; a reader that accepts them
+    // has to keep the routes and tilemap(l, f) consistent for the linked cel too.
+    let mut link_label = None;
+    if t.chance(1, 5) {
+        let mut cands = vec![];
+        for (fi, fr) in s.frames.iter().enumerate() {
+            for c in &fr.cels {
+                if matches!(c.content, crate::model::CelContent::Tilemap { .. }) {
+                    cands.push((fi, c.layer, c.x, c.y, c.opacity));
+                }
+            }
+        }
+        if !cands.is_empty() && s.frames.len() < 60000 {
+            let (fi, li, cx, cy, cop) = cands[t.below(cands.len() as u32) as usize];
+            let mut s2 = s.clone();
+            let link = crate::model::Cel { layer: li, x: cx, y: cy, opacity: cop, content: crate::model::CelContent::Link { frame: fi as u16 }, user_data: None };
+            // prefer an existing frame without a cel on that layer, else a new last frame
+            let free: Vec<usize> = (0..s2.frames.len()).filter(|f| *f != fi && !s2.frames[*f].cels.iter().any(|c| c.layer == li)).collect();
+            if !free.is_empty() && t.chance(2, 3) {
+                let f2 = free[t.below(free.len() as u32) as usize];
+                s2.frames[f2].cels.push(link);
+            } else {
+                s2.frames.push(crate::model::Frame { duration: 50, cels: vec![link] });
+            }
+            if AsepriteFile::read(&encode(&s2, &plan).bytes[..]).is_ok() {
+                s = s2;
+                link_label = Some("link-to-tilemap-cel:accepted");
+            } else {
+                link_label = Some("link-to-tilemap-cel:refused");
+            }
+        }
+    }
     let mut enc = encode(&s, &plan);
     // a quarter of the sprites carry non-zero values in the cels' reserved / z-index bytes (route agreement and
     // single-visible-layer frames do not depend on the order in which cels are drawn)
@@ -117,6 +150,9 @@ pub fn check(tape: &[u32]) -> CheckResult {
     o.counters.push(("cel_coordinates_checked", pairs));
     if s.frames.len() != s.layers.len() {
         o.labels.push("frames!=layers".into());
+    }
+    if let Some(l) = link_label {
+        o.labels.push(l.into());
     }
     o.sample = Some(json!({"frames": s.frames.len(), "layers": s.layers.len(), "cels": s.frames.iter().map(|f| f.cels.iter().map(|c| c.layer).collect::<Vec<_>>()).collect::<Vec<_>>()}));
     Ok(o)
